@@ -33,10 +33,13 @@ def rdflibParsed (fmt : String) : Bool :=
 
 /-- configuration-only failures of the first `shex_graph` on an accepted configuration:
 `compression_mode = zip` without a file to open (`_get_base_zip_archive_if_needed` iterates `None`),
-and `gz` / `xz` with a raw string that goes to an rdflib parser (decompression of `None`) -/
+and `gz` / `xz` with a raw string that goes to an rdflib parser (decompression of `None`); a remote source in a format only
+sheXer's own readers know (`ValueError: Unsupported input format`, finding F-C20-4) -/
 def deferred (a : InitArgs) : Guard :=
   if a.compression_mode == some Gen.ZIP && !a.graph_file_input && !a.graph_list_of_files_input then Guard.otherError "TypeError"
   else if a.compression_mode.isSome && a.raw_graph && rdflibParsed a.input_format then Guard.otherError "TypeError"
+  -- remote sources are always handed to rdflib (`RdflibParserTripleYielder`), which has no reader for sheXer's own line formats
+  else if (a.url_graph_input || a.list_of_url_input) && rdflibCannotRead a.input_format then Guard.valueError
   else Guard.ok
 
 end Ctor
